@@ -20,7 +20,7 @@ import fnmatch
 
 from hypothesis import strategies as st
 
-from vlib import tools
+from vlib import patient, tools
 from vlib import elf as E
 from vlib.core import Check, Discard, Inconclusive, OracleSplit, Violation
 from vlib.elf import Elf
@@ -330,21 +330,21 @@ class C32(Check):
         for n in case["needs"]:
             src.append(f"  call {n}@PLT")
         src.append(".section .note.GNU-stack,\"\",@progbits")
-        tools.asm("\n".join(src) + "\n", "a.o", cwd=d)
+        patient.asm("\n".join(src) + "\n", "a.o", cwd=d)
         inputs = ["a.o"]
         if case["needs"]:
-            tools.asm(DEP_ASM, "dep.o", cwd=d)
+            patient.asm(DEP_ASM, "dep.o", cwd=d)
             tools.write(f"{d}/dep.map", DEP_SCRIPT)
-            tools.must(tools.link("ld", ["-shared", "-o", "libdep.so", "-soname", "libdep.so", "--version-script=dep.map", "dep.o"],
+            tools.must(patient.link("ld", ["-shared", "-o", "libdep.so", "-soname", "libdep.so", "--version-script=dep.map", "dep.o"],
                                   cwd=d), "building libdep.so")
             inputs.append("libdep.so")
         script = render_script(nodes, anon)
         tools.write(f"{d}/v.map", script)
         args = ["-shared", "--no-gc-sections", "-soname", "libout.so", "--version-script=v.map", *inputs]
-        rl = tools.link("ld", [*args, "-o", "ld.so"], cwd=d)
+        rl = patient.link("ld", [*args, "-o", "ld.so"], cwd=d)
         if rl.rc != 0:
             raise Discard("GNU ld rejects: " + rl.err.strip().split("\n")[0].split(": ", 1)[-1][:40])
-        rw = tools.link("wild", [*args, "-o", "wild.so"], cwd=d)
+        rw = patient.link("wild", [*args, "-o", "wild.so"], cwd=d)
         if rw.timed_out:
             raise Inconclusive("wild timed out")
         if rw.rc != 0:
